@@ -175,6 +175,8 @@ def main(argv=None):
                 reasons.append('deciding monitor never evaluated: ' + req)
         if m['cases'] == 0:
             reasons.append('no case was driven')
+        if m['events'].get('case_timeout', 0):
+            reasons.append('cases stopped by the per-case watchdog (undecided): %d' % m['events']['case_timeout'])
         # a monitored call that mostly *refuses* (LinAlgError-type give-ups are accepted case by case) has not been decided: on the
         # unchanged tree such refusals are rare (0-1 per run); a run in which they outnumber a tenth of the completed calls of that
         # function (and are more than 5) is inconclusive, never 'held'
